@@ -301,7 +301,7 @@ fn programs() -> Vec<(&'static str, Vec<Def>)> {
 }
 
 pub fn run() -> i32 {
-    let mut rep = Report::new("fidelity", "6 model programs (every definition kind; enumerator values in decimal / hex / binary / underscores / negative with implicit numbering after them; tags 0 and 2^31-1; nested type expressions; attributes with escaped arguments; every tag/optional assignment over <= 3 members) x 7 layouts; canonical dump of the AST == dump of the model, no diagnostic");
+    let mut rep = Report::new("fidelity", "6 model programs (every definition kind; enumerator values in decimal / hex / binary / underscores / negative with implicit numbering after them; tags 0 and 2^31-1; nested type expressions; attributes with escaped arguments; every tag/optional assignment over <= 3 members) x 7 layouts; canonical dump of the AST == dump of the model, no diagnostic; + 2 files with conditional sections x 3 command-line symbol sets x 4 neighbouring files that #define/#undef x 3 positions: the file's definitions are what they are when it is compiled alone");
     for (name, defs) in programs() {
         let mut toks = vec![t("module"), t("M"), Tok::NL];
         for d in &defs { def_toks(&mut toks, d); }
@@ -332,6 +332,41 @@ pub fn run() -> i32 {
                     else if got != want {
                         let i = got.iter().zip(&want).position(|(g, w)| g != w).unwrap_or(got.len().min(want.len()));
                         rep.counterexample(&format!("{label}\n{text}"), &format!("line {i}: {:?}", want.get(i)), &format!("line {i}: {:?} ({} vs {} lines)", got.get(i), got.len(), want.len()));
+                    }
+                }
+            }
+        }
+    }
+    // ---- a file's definition list is made from THAT file's text (and the command line's symbols) alone: compiled after / before other
+    //      files that #define / #undef symbols, it is what it is when compiled alone
+    {
+        let subjects = [
+            "module Sub\n#if DEBUG\nstruct Extra { a: bool }\n#endif\nstruct Always { b: int32 }\n#if !DEBUG\nenum NoDebug { A }\n#endif\n",
+            "#if DEBUG && OTHER\nmodule WithBoth\n#elif DEBUG || OTHER\nmodule WithOne\n#else\nmodule WithNone\n#endif\nstruct S { a: bool }\n",
+        ];
+        let neighbours = [
+            "#define DEBUG\nmodule Pre\nstruct P {}\n", "#define DEBUG\n#define OTHER\nmodule Pre\n", "#undef DEBUG\nmodule Pre\nstruct P {}\n", "#define OTHER\n#undef DEBUG\nmodule Pre\n",
+        ];
+        for subject in subjects {
+            for cli in [vec![], vec!["DEBUG".to_owned()], vec!["DEBUG".to_owned(), "OTHER".to_owned()]] {
+                let dump_of = |texts: Vec<&str>, index: usize| -> Result<(Vec<String>, String), String> {
+                    let mut o = SliceOptions::default();
+                    o.defined_symbols = cli.clone();
+                    let texts: Vec<String> = texts.iter().map(|x| x.to_string()).collect();
+                    std::panic::catch_unwind(move || {
+                        let refs: Vec<&str> = texts.iter().map(|x| x.as_str()).collect();
+                        let state = slicec::compile_from_strings(&refs, Some(&o));
+                        let module = state.files[index].module.as_ref().map(|m| m.borrow().nested_module_identifier().to_owned()).unwrap_or_default();
+                        (dump_ast(&state.files[index]), module)
+                    }).map_err(|_| "PANIC".to_owned())
+                };
+                let alone = dump_of(vec![subject], 0);
+                for nb in neighbours {
+                    for (place, texts, index) in [("after", vec![nb, subject], 1usize), ("before", vec![subject, nb], 0), ("between", vec![nb, subject, nb.replace("Pre", "Post").as_str()].iter().map(|x| *x).collect::<Vec<&str>>(), 1)] {
+                        let label = format!("file isolation: -D {cli:?}; subject {place} {nb:?}\n{subject}");
+                        rep.case(true, || label.clone());
+                        let got = dump_of(texts.clone(), index);
+                        if got != alone { rep.counterexample(&label, &format!("what the file gives when compiled alone: {alone:?}"), &format!("{got:?}")); }
                     }
                 }
             }
